@@ -1,4 +1,5 @@
 //! Driver for gossipsub wire/caches/config and prost-codec (C57, C31, C33, C34, C30).
+mod caches;
 mod config;
 mod framing;
 
@@ -7,6 +8,7 @@ fn main() {
     match a.mode.as_str() {
         "framing" => framing::main(&a),
         "config" => config::main(&a),
+        "caches" => caches::main(&a),
         m => {
             eprintln!("unknown mode {m}");
             std::process::exit(2)
